@@ -312,7 +312,7 @@ class Ctx:
     def choose(self, conds: List[str]) -> int:
         pcs = set(self.pc)
         for i, c in enumerate(conds):
-            if c in pcs:
+            if c in pcs and c != TRUE:
                 return i
         live = [i for i, c in enumerate(conds) if c != FALSE and Not(c) not in pcs]
         if not live:
